@@ -1177,6 +1177,47 @@ impl Recorder {
         }
     }
 
+    /// Long compositions made of stackable parts: a one-letter start followed by ONE suffix key of suffix.json typed again and
+    /// again (45 letters), phonetic method with suggestions on - every proper prefix of such a word is a base with a known
+    /// suffix at several split points, so whatever the suffix path does per split point is multiplied.  Emitted as session events.
+    fn suffix_stacks(&mut self, shard: usize, shards: usize) {
+        let mut sk: Vec<String> = self.or.suffix.keys().filter(|k| k.chars().all(|c| c.is_ascii_lowercase())).cloned().collect();
+        sk.sort();
+        let mut picks: Vec<String> = ["e", "r", "er", "o", "i", "ta", "te", "ke", "ra", "ei", "der", "gulo"].iter().map(|s| s.to_string()).filter(|k| sk.contains(k)).collect();
+        picks.extend(sk.iter().step_by(37).cloned());
+        let cfg = Cfg { layout: "phonetic".into(), psug: true, english: true, smart: false, db: true, ..Default::default() };
+        let j = json!({"method": "phonetic", "layout": "phonetic", "sug": true, "numpad": true,
+                       "o": {"vowel": false, "chandra": false, "kar": false, "reph": false, "karorder": false}});
+        for (n, key) in picks.iter().enumerate() {
+            if n % shards.max(1) != shard % shards.max(1) {
+                continue;
+            }
+            clean_home(&self.home);
+            let mut ctx = match Ctx::new(&cfg, &self.home) {
+                Ok(c) => c,
+                Err(_) => continue,
+            };
+            self.emit(json!({"ev": "new", "cfg": j}));
+            let mut text = String::from(["a", "k", "sesh"][n % 3]);
+            while text.len() < 45 {
+                text.push_str(key);
+            }
+            for ch in text.chars() {
+                let code = match self.keys.code_for_char(ch) { Some(c) => c, None => continue };
+                let o = ctx.key(code, 0, 0);
+                let mut e = json!({"ev": "key", "code": code, "mod": 0, "sel": 0});
+                for (k, v) in Self::ret_fields(&o).as_object().unwrap() {
+                    e[k] = v.clone();
+                }
+                self.emit(e);
+                // (a call far over the budget: stop this word, the trace is rejected at this event anyway)
+                if o.kind == "panic" || o.us > 8_000_000 {
+                    break;
+                }
+            }
+        }
+    }
+
     /// C04 beyond single keys: every published key pressed twice in a row inside one word under every pair of modifier
     /// patterns (the plane is chosen per key press, nothing of the previous press may decide it), and after another key;
     /// all composition helpers off, suggestions off and on, both layout files.  Emitted as ordinary session events.
@@ -1341,6 +1382,7 @@ impl Recorder {
         let letters: Vec<u16> = "abcdefghijklmnopqrstuvwxyzABDGHJKNOSTZ".chars().filter_map(|c| self.keys.code_for_char(c)).collect();
         let all: Vec<u16> = self.keys.codes.iter().map(|k| k.code).collect();
         self.long_runs(shard, shards);
+        self.suffix_stacks(shard, shards);
         self.key_pairs(shard, shards);
         self.option_flips(shard, shards);
         self.sel_edges(shard, shards);
